@@ -1,22 +1,35 @@
+(* Preservation of SemInv.Inv: ainv of the stepping actor.  Assembled from one lemma per control point
+   (SemPresAa.v, SemPresAb.v, SemPresAc.v; proof script as_script in SemPresTac.v). *)
 From Coq Require Import List Arith ZArith Bool Lia.
 Import ListNotations.
 Require Import MayV.Sync.SemModel MayV.Sync.SemInv MayV.Sync.SemTac.
+Require Export MayV.Sync.SemCase.
+Require Import MayV.Sync.SemPresAa MayV.Sync.SemPresAb MayV.Sync.SemPresAc.
 Open Scope Z_scope.
 
 Lemma pres_A_self s ac s' a : Inv s -> step s ac = Some s' ->
   match ac with Wait x _ | TryWait x | Post x | GetValue x | Step x | Fire x => x = a end -> ainv s' a.
 Proof.
-  intros Hi H Hx. g_facts Hi.
-  step_cases H; subst; unfold ainv, sorted_into, mk, set_pc, set_ctx, set_res, set_av; cbn [cnt q nextb A Bk ini uposts succ ung giv pre hand owe].
-  all: destruct (actx (A s a)) eqn:Ectx; cbn [ret_pc].
-  all: a_facts Hi a; b_facts Hi (ab (A s a)); b_facts Hi (aw (A s a)); b_facts Hi (nextb s).
-  all: try match goal with E : NoDup (?n :: _) |- _ => b_facts Hi n; inversion E; subst end.
-  all: try match goal with E : q _ = _ :: _ |- _ => rewrite E in * end.
-  all: upd_tac; unfold inpark; cbn [apc ab aw actx atimed acomp av ares tok parked reason unp rel owner fresh]; lists.
-  all: cbn [apc ab aw actx atimed acomp av ares] in *.
-  all: try match goal with e : ab (A ?s ?a) = aw (A ?s ?a) |- _ => rewrite e in * end.
-  all: try match goal with e : aw (A ?s ?a) = ab (A ?s ?a) |- _ => rewrite e in * end.
-  all: repeat match goal with E : apc _ = _ |- _ => rewrite E end; try rewrite Ectx.
-  all: brk; repeat match goal with |- _ /\ _ => split end; intros; brk; ap; brk; try mem.
-  all: try match goal with Q : forall b, ?n = b \/ _ -> (1 <= b < _)%nat |- _ => specialize (Q n (or_introl eq_refl)); lia end.
+  intros Hi H Hx. assert (Ea : actor ac = a) by (destruct ac; exact Hx). clear Hx. subst a.
+  destruct (is_step ac) eqn:Hn; [|eapply pres_A_self_env; eassumption].
+  destruct ac as [a t|a|a|a|a|a]; try discriminate Hn. cbn [actor]. destruct (apc (A s a)) eqn:Epc.
+  - rewrite (step_idle s a Epc) in H. discriminate H.
+  - eapply pres_A_self_W0; eassumption.
+  - eapply pres_A_self_W0c; eassumption.
+  - eapply pres_A_self_W1; eassumption.
+  - eapply pres_A_self_W2; eassumption.
+  - eapply pres_A_self_WP; eassumption.
+  - eapply pres_A_self_WW; eassumption.
+  - eapply pres_A_self_E1; eassumption.
+  - eapply pres_A_self_E2; eassumption.
+  - eapply pres_A_self_E3; eassumption.
+  - eapply pres_A_self_E4; eassumption.
+  - eapply pres_A_self_P0; eassumption.
+  - eapply pres_A_self_K1; eassumption.
+  - eapply pres_A_self_K2; eassumption.
+  - eapply pres_A_self_K3; eassumption.
+  - eapply pres_A_self_K4; eassumption.
+  - eapply pres_A_self_Y0; eassumption.
+  - eapply pres_A_self_Y0c; eassumption.
+  - eapply pres_A_self_G0; eassumption.
 Qed.
